@@ -21,6 +21,7 @@ KIND_BY_MESSAGE = [
     ("recommendation not met", "recommends"),
     ("Resource limit (rlimit) exceeded", "rlimit"),
     ("rlimit", "rlimit"),
+    ("unable to prove post-condition of closure", "postcondition"),
     ("unreachable", "assertion"),
     ("index out of bounds", "precondition"),
 ]
@@ -82,6 +83,7 @@ def run(path, args=(), timeout=900, extra=()):
         r.stdout = (e.stdout or b"").decode() if isinstance(e.stdout, bytes) else (e.stdout or "")
         r.stderr = (e.stderr or b"").decode() if isinstance(e.stderr, bytes) else (e.stderr or "")
     r.wall_s = time.time() - t0
+    all_diags = []
     for ln in r.stderr.split("\n"):
         ln = ln.strip()
         if not ln.startswith("{"):
@@ -95,10 +97,7 @@ def run(path, args=(), timeout=900, extra=()):
         dg = Diag(d)
         if dg.message.startswith("aborting due to"):
             continue
-        if dg.kind:
-            r.diags.append(dg)
-        else:
-            r.hard_errors.append(dg)
+        all_diags.append(dg)
     # json result on stdout
     try:
         i = r.stdout.index("{")
@@ -106,6 +105,16 @@ def run(path, args=(), timeout=900, extra=()):
         vr = j.get("verification-results", {})
         r.verified = vr.get("verified", 0)
         r.errors = vr.get("errors", 0)
+        # Verification failures are reported only after type checking and VIR construction
+        # succeeded: then `errors` > 0 and every error diagnostic is a refuted obligation.
+        # Otherwise (syntax / type / unsupported construct) the diagnostics are hard errors.
+        if r.errors > 0 and not vr.get("encountered-vir-error"):
+            for dg in all_diags:
+                if not dg.kind:
+                    dg.kind = "unclassified"
+                r.diags.append(dg)
+        else:
+            r.hard_errors += all_diags
         r.ok = bool(vr.get("success")) and not r.diags and not r.hard_errors
         if vr.get("encountered-vir-error") and not r.hard_errors:
             r.hard_errors.append(Diag({"message": "vir error", "level": "error", "rendered": r.stderr[-2000:]}))
@@ -116,6 +125,7 @@ def run(path, args=(), timeout=900, extra=()):
         for mod in smt.get("smt-run-module-times", []):
             r.functions += mod.get("function-breakdown", [])
     except (ValueError, KeyError):
+        r.hard_errors += all_diags
         if not r.hard_errors and not r.timeout:
             r.hard_errors.append(Diag({"message": "no json result from verus", "level": "error",
                                        "rendered": (r.stderr or r.stdout)[-3000:]}))
